@@ -140,10 +140,15 @@ def translate_s5():
 def s5_compare(exp, out):
     """Stage S5 (SpaceGroup::new): verdict, number, Hall number and `linear` exactly, origin shift to 1e-9 modulo 1.
     The model appends `; fragile 0|1` (a compared quantity within 1e-9 of epsilon): fragile cases are not compared."""
-    m = re.match(r"(.*) ; fragile ([01])$", out)
+    m = re.match(r"(.*) ; fragile ([01])(?: ; row ([01]))?$", out)
     if not m:
         return f"model answer unparsed: {out[:160]}"
     body, fragile = m.group(1), m.group(2) == "1"
+    if m.group(3) is not None:
+        # exhaustive table row (theorem identify_tables, decided here by the compiled model on every run)
+        S5_ROWS.append(m.group(3))
+        if m.group(3) == "0":
+            return f"table row: the model's answer {body[:80]} is not the tabulated number / convention Hall number"
     if fragile:
         S5_FRAGILE.append(exp[:80])
         return None
@@ -164,6 +169,7 @@ def s5_compare(exp, out):
 
 
 S5_FRAGILE = []
+S5_ROWS = []
 
 
 def run_stages(kinds, tier, seed, key):
@@ -191,6 +197,7 @@ def run_stages(kinds, tier, seed, key):
         r2, e2 = vlib.read_cases(tcases)
         reqs, exps, kinds = reqs + r2, exps + e2, list(kinds) + ["s5pg"]
         del S5_FRAGILE[:]
+        del S5_ROWS[:]
     # additional, stage-specific dumps (same line format), e.g. `s6-gen`: special Wyckoff positions, triclinic, monoclinic
     for gen in sorted({STAGE_EXTRA_GEN[k] for k in kinds if k in STAGE_EXTRA_GEN}):
         extra = os.path.join(cdir, f"{gen}_{tier}_{seed}.cases")
@@ -311,6 +318,7 @@ def run_property(pid, tier, seed, modes, props, level_text_keys, nontrivial, ext
             cov["stages"] = stages
             if "s5" in stages:
                 cov["s5_fragile_excluded"] = len(S5_FRAGILE)
+                cov["s5_table_rows_checked"] = len(S5_ROWS)
             if STAGE_STATS:
                 cov["stage_stats"] = dict(STAGE_STATS)
         except RuntimeError as e:
